@@ -1363,6 +1363,7 @@ type err =
 | ERenderNonMapping of string
 | EResolving of err
 | EClassNotFound of string
+| EIncludeLoop of string list * string
 | EUnknownNode of string
 | EClassPath of string
 | EDeserialize of string * err
@@ -3566,6 +3567,21 @@ let rec canon_err = function
     (String ((Ascii (false, true, true, true, false, true, true, false)),
     (String ((Ascii (false, false, true, false, false, true, true, false)),
     EmptyString)))))))))))))))))))))))))))) (hx c)
+| EIncludeLoop (ch, c) ->
+  append (String ((Ascii (true, false, true, false, false, false, true,
+    false)), (String ((Ascii (true, false, false, true, false, false, true,
+    false)), (String ((Ascii (false, true, true, true, false, true, true,
+    false)), (String ((Ascii (true, true, false, false, false, true, true,
+    false)), (String ((Ascii (false, false, true, true, false, true, true,
+    false)), (String ((Ascii (true, false, true, false, true, true, true,
+    false)), (String ((Ascii (false, false, true, false, false, true, true,
+    false)), (String ((Ascii (true, false, true, false, false, true, true,
+    false)), (String ((Ascii (false, false, true, true, false, false, true,
+    false)), (String ((Ascii (true, true, true, true, false, true, true,
+    false)), (String ((Ascii (true, true, true, true, false, true, true,
+    false)), (String ((Ascii (false, false, false, false, true, true, true,
+    false)), (String ((Ascii (false, false, false, false, false, true, false,
+    false)), EmptyString)))))))))))))))))))))))))) (append (hx c) (hxs ch))
 | EUnknownNode n0 ->
   sp (String ((Ascii (true, false, true, false, false, false, true, false)),
     (String ((Ascii (true, false, true, false, true, false, true, false)),
@@ -4190,10 +4206,10 @@ let include_name fi root_params cls =
   else Ok cls
 
 (** val render_impl :
-    nat -> nat -> ncfg -> cls_entry list -> node -> string list -> node ->
-    ((node * string list) * node) res **)
+    nat -> nat -> ncfg -> cls_entry list -> node -> string list -> string
+    list -> node -> ((node * string list) * node) res **)
 
-let rec render_impl f fi cfg tbl self seen0 root =
+let rec render_impl f fi cfg tbl self seen0 loading root =
   match f with
   | O -> OutOfFuel
   | S f' ->
@@ -4202,18 +4218,22 @@ let rec render_impl f fi cfg tbl self seen0 root =
          match cs with
          | [] -> Ok (seen1, root0)
          | c :: cs' ->
-           bind (include_name fi root0.n_params c) (fun name ->
+           bind (include_name fi root0.n_params c) (fun name0 ->
+             let name = abs_class_name self.n_loc name0 in
              if mem name seen1
              then go cs' seen1 root0
-             else bind (read_class cfg tbl self.n_loc name) (fun r ->
-                    match r with
-                    | Some cn ->
-                      bind (render_impl f' fi cfg tbl cn seen1 root0)
-                        (fun pat ->
-                        let (p, root1) = pat in
-                        let (_, seen2) = p in
-                        go cs' (app seen2 (name :: [])) root1)
-                    | None -> go cs' seen1 root0))
+             else if mem name loading
+                  then Err (EIncludeLoop (loading, name))
+                  else bind (read_class cfg tbl self.n_loc name) (fun r ->
+                         match r with
+                         | Some cn ->
+                           bind
+                             (render_impl f' fi cfg tbl cn seen1
+                               (app loading (name :: [])) root0) (fun pat ->
+                             let (p, root1) = pat in
+                             let (_, seen2) = p in
+                             go cs' (app seen2 (name :: [])) root1)
+                         | None -> go cs' seen1 root0))
        in go self.n_classes seen0 root) (fun pat ->
       let (seen', root') = pat in
       bind (merge_into self root') (fun pat0 ->
@@ -4354,11 +4374,11 @@ let node_render f fi cfg tbl n0 meta =
       let base = { n_apps = r_empty; n_classes = n0.n_classes; n_params = p0;
         n_loc = [] }
       in
-      bind (render_impl f fi cfg tbl base [] empty_node) (fun pat ->
+      bind (render_impl f fi cfg tbl base [] [] empty_node) (fun pat ->
         let (p, _) = pat in
-        let (base1, seen1) = p in
-        bind (render_impl f fi cfg tbl n0 seen1 base1) (fun pat0 ->
-          let (p1, _) = pat0 in let (n1, _) = p1 in render_params fi n1))))
+        let (base1, _) = p in
+        bind (merge_into n0 base1) (fun pat0 ->
+          let (n1, _) = pat0 in render_params fi n1))))
 
 type node_entry = { ne_name : string; ne_path : string list; ne_doc : yaml }
 
